@@ -168,6 +168,11 @@ def layer_D_leaves():
     QN = ("arr2", ((1.0, 1000.0, 0.5), (1000.005, 1.0, 0.25), (0.5, 0.2500001, 2.0)))
     out += [("qform", v, QT), ("qform", v, QN), ("qform", vp1, QT), ("qform", ("slice", u, 1, 4, None), QN),
             ("dot", v, ("mv", QT, v)), ("bin", "*", ("c", 1e9), ("qform", v, QT))]
+    # strictly LOWER-triangular matrices (non-zero entries whose mirrored entries are zero) over expression vectors of
+    # different element degrees
+    QL = ("arr2", ((0.0, 0.0, 0.0), (1.0, 0.0, 0.0), (2.0, -3.0, 0.0)))
+    out += [("qform", vp1, QL), ("qform", ("vbin", "*", v, v), QL), ("qform", ("vbin", "*", v, ("slice", u, 1, 4, None)), QL),
+            ("qform", v, QL), ("qform", ("vbin", "+", v, ("c", 0.0)), ("arr2", ((0.0, 0.0, 0.0), (0.0, 0.0, 0.0), (1.0, 0.0, 0.0))))]
     out += tiny_coefficient_rows()
     # reductions over a vector whose elements are Parameters ONLY, under operators whose other operands are variable-free
     pv = ("pvec", ("p", "q"))
